@@ -147,6 +147,8 @@ class GreedyCorr(MatchCorr):
 class C02(Prop):
     id = "C02"
     props_file = "Props/C02.v"
+    # redundant tie (core.gen_tie): these decision functions, translated from the source on every run, equal the hand model for all inputs
+    gen_tie_theorems = ['GenTie_is_matchable', 'GenTie_is_label_correct']
     gen_files = []
     design_ref = "DESIGN.md section 4, C02"
     technique = ("Coq proof by refinement: the executable model of the two matching loops (row-major first-best arg-min/arg-max with "
